@@ -1,5 +1,6 @@
 import TF.Proofs.MmrMember
 import TF.Proofs.MmrNodeIndex
+import TF.Proofs.MmrUpdAppend
 /-!
 # C05 — MMR membership proofs stay exact through every history; verification exact
 
@@ -135,11 +136,20 @@ def changedSlots (g g' : Nat → D) (n n' : Nat) (lis : List Nat) : List Nat :=
 /-- apply a batch of leaf assignments -/
 def applyMuts (g : Nat → D) (ms : List (Nat × D)) : Nat → D := ms.foldl (fun g m => Function.update g m.1 m.2) g
 
-/-- `update_from_append`: a from-scratch path becomes the from-scratch path of the longer range; `true` iff it changed -/
-def update_from_append_spec_statement : Prop :=
-  ∀ (D : Type) [DecidableEq D] (H : D → D → D) (g : Nat → D) (n i : Nat), i < n → n + 1 < 2 ^ 63 →
+/-- **update_from_append_spec** (`MmrMembershipProof::update_from_append`): given the from-scratch path of leaf `i` in
+    the `n`-leaf range, the old peaks and the new leaf, the routine returns exactly the from-scratch path of leaf `i`
+    in the `(n+1)`-leaf range, and `true` iff the path changed — for every hash, every leaf list, every `i < n`, every
+    leaf count with `n + 1 < 2^63`; it never panics there.  (Helper lemmas: `TF/Proofs/MmrUpdAppend.lean`.) -/
+theorem update_from_append_spec (g : Nat → D) (n i : Nat) (hlt : i < n) (hn : n + 1 < 2 ^ 63) :
     updateFromAppend H (authPathOf H g n i) i n (g n) (peaks H n g)
-      = some (authPathOf H g (n + 1) i, decide (authPathOf H g (n + 1) i ≠ authPathOf H g n i))
+      = some (authPathOf H g (n + 1) i, decide (authPathOf H g (n + 1) i ≠ authPathOf H g n i)) :=
+  updateFromAppend_spec H g n i hlt hn
+/-- non-vacuity: 3 leaves `1, 2, 3` under the toy hash `a + 2 b`, peaks `[5, 3]`; appending `4` merges everything, the
+    proof `[2]` of leaf 0 becomes `[2, 11]` -/
+example : updateFromAppend (fun a b : Nat => a + 2 * b) [2] 0 3 4 [5, 3] = some ([2, 11], true) := by decide +kernel
+example : authPathOf (fun a b : Nat => a + 2 * b) (fun k => k + 1) 4 0 = [2, 11] ∧
+    authPathOf (fun a b : Nat => a + 2 * b) (fun k => k + 1) 3 0 = [2] ∧
+    peaks (fun a b : Nat => a + 2 * b) 3 (fun k => k + 1) = [5, 3] := by decide +kernel
 
 /-- `batch_update_from_append`: any list of leaf indices (any subset, any order); reports exactly the changed proofs -/
 def batch_update_from_append_spec_statement : Prop :=
@@ -229,7 +239,7 @@ theorem update_from_leaf_mutation_spec_partial (g g' : Nat → D) (n i j : Nat) 
     the specifications of `update_from_append`, `update_from_leaf_mutation` and `batch_mutate_leaf_and_update_mps`, every
     valid history from the empty range keeps the accumulator and every tracked proof equal to the from-scratch ones. -/
 theorem history_preserves_proofs_partial
-    (hA : update_from_append_spec_statement) (hM : update_from_leaf_mutation_spec_statement)
+    (hM : update_from_leaf_mutation_spec_statement)
     (hB : batch_mutate_leaf_and_update_mps_spec_statement) : history_preserves_proofs_statement := by
   intro D _ H g0 ops
   -- generalise the start: any honest state below 2^63 leafs
@@ -263,7 +273,7 @@ theorem history_preserves_proofs_partial
             = some (authPathOf H (Function.update g n d) (n + 1) k,
                 decide (authPathOf H (Function.update g n d) (n + 1) k ≠ authPathOf H (Function.update g n d) n k)) := by
           intro k hk
-          have := hA D H (Function.update g n d) n k hk hop
+          have := update_from_append_spec H (Function.update g n d) n k hk hop
           rw [← hpk, ← hd, ← authPathOf_congr H g _ n k hk hg'] at this
           rw [this, ← authPathOf_congr H g _ n k hk hg']
         rw [← hpk, ← hd] at happ
